@@ -85,6 +85,16 @@ bench("triangle", ["A", "B", "C"],
       ports={"A": [out(conn("B")), out(conn("C"))], "C": [out(conn("B"))]},
       procs=[ev("A", 1), ev("A", 5)])
 
+# Several laps of the recipient's ring buffer: A sends a long series directly to B and, interleaved, through the relay C.
+bench("laps", ["A", "B", "C"],
+      prog=[[send(1, 2), send(2, 4), send(1, 3), send(1, 2), send(1, 3)],  # 1 (A)
+            [NOP],            # 2 (B)
+            [NOP],            # 3 (B)
+            [send(1, 5)],     # 4 (C): forward to B
+            [NOP]],           # 5 (B)
+      ports={"A": [out(conn("B")), out(conn("C"))], "C": [out(conn("B"))]},
+      procs=[ev("A", 1), ev("A", 1)])
+
 # Fan-out with plain / map / filter_map connections to models and a sink.
 bench("fanout", ["A", "B", "C"],
       prog=[[send(1, 2), send(1, 3)],   # 1 (A): two broadcasts
